@@ -550,3 +550,214 @@ Proof.
   - exact Hs.
 Qed.
 Print Assumptions C17_reject_point_capstone.
+
+(* ===================================================================== *)
+(* 7. The AFFINE class `Point` - the second representation ("regardless of the internal
+   representation").  Tie: TRANSLATOR for the arithmetic of Point.__add__, Point.double and
+   Point.__neg__ (Gen/EcAffine.v: ap_add_same_x, ap_add_opposite, ap_add_den, ap_add_xy,
+   ap_double_den, ap_double_xy, ap_neg_xy, regenerated on every run); hand models
+   (Model/EcAffine.v) for Point.__init__, __eq__, the loop of __mul__/__rmul__ and the
+   mixed operations PointJacobi.__eq__/__add__ with an affine operand, from_affine,
+   to_affine, cross-checked by tools/props/C17.py.
+   An affine object is `option (Z * Z)` (None = INFINITY); `arepr p R Q`: R denotes the
+   group element Q (both INFINITY, or coordinates congruent); `xcan`: x reduced (what the
+   integer test `self.__x == other.__x` needs; every result has it); `canon`: x and y reduced. *)
+From Bec2 Require Import Gen.EcAffine Model.EcAffine Proofs.EcAffineProofs Proofs.EcSmallAffine.
+
+(* 7a. EVERY modulus, all integers (no primality, no group): the results satisfy the
+   division-free relations of the specification; INFINITY is the identity; P + (-P) = INFINITY *)
+Theorem C17_affine_add_rel : forall p a b,
+  (forall Q, ap_add p a b None Q = Ok Q) /\
+  (forall P, ap_add p a b P None = Ok P) /\
+  (forall x y1 y2, eqm p (y1 + y2) 0 -> ap_add p a b (Some (x, y1)) (Some (x, y2)) = Ok None) /\
+  (forall x y1 y2, ~ eqm p (y1 + y2) 0 ->
+     ap_add p a b (Some (x, y1)) (Some (x, y2)) = ap_double p a b (Some (x, y1))) /\
+  (forall x1 y1 x2 y2 R, x1 <> x2 -> ap_add p a b (Some (x1, y1)) (Some (x2, y2)) = Ok R ->
+     exists a3, R = Some a3 /\ add_rel p (x1, y1) (x2, y2) a3 /\ on_curve p a b a3 /\ canon p R).
+Proof. exact affine_add_rel. Qed.
+Print Assumptions C17_affine_add_rel.
+
+Theorem C17_affine_double_rel : forall p a b,
+  ap_double p a b None = Ok None /\
+  (forall x y R, y <> 0 -> ap_double p a b (Some (x, y)) = Ok R ->
+     exists a3, R = Some a3 /\ dbl_rel p a (x, y) a3 /\ on_curve p a b a3 /\ canon p R).
+Proof. exact affine_double_rel. Qed.
+Print Assumptions C17_affine_double_rel.
+
+Theorem C17_affine_neg_rel : forall p a b q q', ap_neg p a b q = Ok q' ->
+  fst q' = fst q /\ snd q' = p - snd q /\ eqm p (snd q') (- snd q) /\ on_curve p a b q' /\
+  ap_add p a b (Some q) (Some q') = Ok None.
+Proof. exact affine_neg_rel. Qed.
+Print Assumptions C17_affine_neg_rel.
+
+(* the `order` assertion of Point.__init__ (`assert self * order == INFINITY`, made when the
+   cofactor is not 1) can never fail: __mul__ returns INFINITY at its first test because
+   order % order == 0.  The constructor therefore checks curve membership only. *)
+Theorem C17_affine_init : forall p a b h ord q, ap_init p a b h ord q = ap_new p a b q.
+Proof. exact ap_init_order_vacuous. Qed.
+Print Assumptions C17_affine_init.
+
+(* 7b. against the group law.  First half of each statement: whatever is returned is right;
+   second half: with the group points on the curve (p, a, b) nothing is raised. *)
+Theorem C17_affine_add : forall p a b inG gadd gneg, ec_group p a inG gadd gneg ->
+  forall P1 P2 Q1 Q2, inG Q1 -> inG Q2 -> arepr p P1 Q1 -> arepr p P2 Q2 -> xcan p P1 -> xcan p P2 ->
+  (forall R, ap_add p a b P1 P2 = Ok R -> arepr p R (gadd Q1 Q2) /\ xcan p R) /\
+  ((forall q, inG (Some q) -> on_curve p a b q) -> exists R, ap_add p a b P1 P2 = Ok R).
+Proof. exact affine_add_group. Qed.
+Print Assumptions C17_affine_add.
+
+Theorem C17_affine_double : forall p a b inG gadd gneg, ec_group p a inG gadd gneg ->
+  forall P Q, inG Q -> arepr p P Q ->
+  (forall R, ap_double p a b P = Ok R -> arepr p R (gadd Q Q) /\ canon p R) /\
+  ((forall q, inG (Some q) -> on_curve p a b q) -> exists R, ap_double p a b P = Ok R).
+Proof. exact affine_double_group. Qed.
+Print Assumptions C17_affine_double.
+
+Theorem C17_affine_neg : forall p a b inG gadd gneg, ec_group p a inG gadd gneg ->
+  forall q Q, inG Q -> arepr p (Some q) Q ->
+  (forall q', ap_neg p a b q = Ok q' -> arepr p (Some q') (gneg Q) /\ fst q' = fst q) /\
+  ((forall q, inG (Some q) -> on_curve p a b q) -> exists q', ap_neg p a b q = Ok q').
+Proof. exact affine_neg_group. Qed.
+Print Assumptions C17_affine_neg.
+
+(* Point.__mul__ = Point.__rmul__: EVERY integer k - k = 0, multiples of the order attribute
+   (ord = 0 stands for None), k beyond the order (the class does not reduce k), negative k
+   (through (-self) * (-k)), INFINITY - any cofactor flag h.  Proved by the loop invariant
+   "before bit j is processed the accumulator denotes (3k >> (j+1)) - (k >> (j+1)) times Q"
+   (Proofs/EcAffineProofs.v: mul_loop_correct). *)
+Theorem C17_affine_mul : forall p a b inG gadd gneg, ec_group p a inG gadd gneg ->
+  forall h ord P Q k, inG Q -> arepr p P Q -> xcan p P ->
+  ((ord = 0 \/ zmul gadd gneg ord Q = None) ->
+   forall R, ap_mul p a b h ord P k = Ok R -> arepr p R (zmul gadd gneg k Q) /\ xcan p R) /\
+  ((forall q, inG (Some q) -> on_curve p a b q) -> exists R, ap_mul p a b h ord P k = Ok R).
+Proof. exact affine_mul_group. Qed.
+Print Assumptions C17_affine_mul.
+
+(* "the result has reduced coordinates" is FALSE in general: PARTIAL - it holds whenever
+   k*Q <> -Q; otherwise __mul__ may return its temporary negative_self = (x, -y) *)
+Theorem C17_affine_mul_canonical_partial : forall p a b inG gadd gneg, ec_group p a inG gadd gneg ->
+  forall h ord q Q k R, inG Q -> arepr p (Some q) Q -> canon p (Some q) ->
+  (ord = 0 \/ zmul gadd gneg ord Q = None) -> 0 <= k ->
+  zmul gadd gneg k Q <> gneg Q ->
+  ap_mul p a b h ord (Some q) k = Ok R -> canon p R.
+Proof. exact mul_canonical_aff. Qed.
+Print Assumptions C17_affine_mul_canonical_partial.
+
+(* witness: order-5 curve y^2 = x^3 + x + 1 over F_7, G = (0, 1): 19*G is returned as (0, -1),
+   4*G as (0, 6); both denote -G, but Point.__eq__ (integer comparison) calls them different *)
+Example C17_affine_mul_canonical_refuted :
+  In (mkSmall 7 1 1 5) small_curves /\ In (Some (0, 1)) (s_pts (mkSmall 7 1 1 5)) /\
+  ap_mul 7 1 1 1 0 (Some (0, 1)) 19 = Ok (Some (0, -1)) /\ ~ canon 7 (Some (0, -1)) /\
+  ap_mul 7 1 1 1 5 (Some (0, 1)) 19 = Ok (Some (0, -1)) /\
+  ap_mul 7 1 1 1 0 (Some (0, 1)) 4 = Ok (Some (0, 6)) /\
+  ap_eqb (Some (0, -1)) (Some (0, 6)) = false.
+Proof.
+  split; [left; reflexivity|]. split; [vm_compute; tauto|].
+  split; [vm_compute; reflexivity|]. split; [intros [_ H]; vm_compute in H; discriminate H|].
+  split; [vm_compute; reflexivity|]. split; vm_compute; reflexivity.
+Qed.
+Print Assumptions C17_affine_mul_canonical_refuted.
+
+(* __eq__: Point.__eq__ is equality of the stored integers, hence decides "same group element"
+   on reduced objects; PointJacobi.__eq__ with an affine operand (and its reflection
+   Point == PointJacobi) decides it for every projective representation *)
+Theorem C17_affine_eq : forall p a inG gadd gneg, ec_group p a inG gadd gneg ->
+  (forall P Q : apt, ap_eqb P Q = true <-> P = Q) /\
+  (forall P1 P2 Q1 Q2, inG Q1 -> inG Q2 -> arepr p P1 Q1 -> arepr p P2 Q2 -> canon p P1 -> canon p P2 ->
+     (ap_eqb P1 P2 = true <-> Q1 = Q2)) /\
+  (forall J A Q1 Q2, inG Q1 -> inG Q2 -> jrepr p J Q1 -> arepr p A Q2 -> (Q1 <> None \/ A = None) ->
+     (pj_eq_aff p J A = true <-> Q1 = Q2)).
+Proof. exact affine_eq_group. Qed.
+Print Assumptions C17_affine_eq.
+
+(* PointJacobi.__add__ with an affine operand (from_affine, then the Jacobian addition) *)
+Theorem C17_affine_mixed_add : forall p a inG gadd gneg, ec_group p a inG gadd gneg ->
+  forall J A Q1 Q2, inG Q1 -> inG Q2 -> jrepr p J Q1 -> arepr p A Q2 ->
+  jrepr_opt p (pj_add_aff p a J A) (gadd Q1 Q2).
+Proof. exact add_mixed_correct. Qed.
+Print Assumptions C17_affine_mixed_add.
+
+(* the two representations agree: P * k by the affine class and from_affine(P) * k by
+   PointJacobi denote the same group element k*Q; the library's mixed __eq__ calls the two
+   results equal; to_affine() of the Jacobian result has congruent coordinates *)
+Theorem C17_affine_jacobi_agree : forall p a b inG gadd gneg, ec_group p a inG gadd gneg ->
+  forall h ord q Q k rJ rA, inG Q -> arepr p (Some q) Q -> xcan p (Some q) ->
+  (ord = 0 \/ (0 < ord /\ zmul gadd gneg ord Q = None)) -> 0 <= k ->
+  pj_mul p a ord false (pj_from_affine q) k = Ok rJ ->
+  ap_mul p a b h ord (Some q) k = Ok rA ->
+  jrepr_opt p rJ (zmul gadd gneg k Q) /\ arepr p rA (zmul gadd gneg k Q) /\
+  pj_opt_eq_aff p rJ rA = true /\
+  (forall A1, pj_opt_to_affine p rJ = Ok A1 -> apt_eqm p A1 rA).
+Proof. exact affine_jacobi_agree. Qed.
+Print Assumptions C17_affine_jacobi_agree.
+
+(* 7c. closed on the small prime-order curves (no hypothesis; no exception) *)
+Theorem C17_affine_small_add : forall c, In c small_curves ->
+  forall P Q, In P (s_pts c) -> In Q (s_pts c) ->
+  ap_add (s_p c) (s_a c) (s_b c) P Q = Ok (aff_add (s_p c) (s_a c) P Q).
+Proof. exact small_affine_add. Qed.
+Print Assumptions C17_affine_small_add.
+
+Theorem C17_affine_small_double : forall c, In c small_curves ->
+  forall P, In P (s_pts c) -> ap_double (s_p c) (s_a c) (s_b c) P = Ok (aff_add (s_p c) (s_a c) P P).
+Proof. exact small_affine_double. Qed.
+Print Assumptions C17_affine_small_double.
+
+Theorem C17_affine_small_neg : forall c, In c small_curves ->
+  forall q, In (Some q) (s_pts c) ->
+  exists q', ap_neg (s_p c) (s_a c) (s_b c) q = Ok q' /\ Some q' = aff_neg (s_p c) (Some q).
+Proof. exact small_affine_neg. Qed.
+Print Assumptions C17_affine_small_neg.
+
+Theorem C17_affine_small_mul : forall c, In c small_curves ->
+  forall P h ord k, In P (s_pts c) ->
+  (ord = 0 \/ zmul (aff_add (s_p c) (s_a c)) (aff_neg (s_p c)) ord P = None) ->
+  exists R, ap_mul (s_p c) (s_a c) (s_b c) h ord P k = Ok R /\
+            arepr (s_p c) R (zmul (aff_add (s_p c) (s_a c)) (aff_neg (s_p c)) k P).
+Proof. exact small_affine_mul. Qed.
+Print Assumptions C17_affine_small_mul.
+
+Theorem C17_affine_small_mul_exact : forall c, In c small_curves ->
+  forall q h ord k R, In (Some q) (s_pts c) ->
+  (ord = 0 \/ zmul (aff_add (s_p c) (s_a c)) (aff_neg (s_p c)) ord (Some q) = None) -> 0 <= k ->
+  zmul (aff_add (s_p c) (s_a c)) (aff_neg (s_p c)) k (Some q) <> aff_neg (s_p c) (Some q) ->
+  ap_mul (s_p c) (s_a c) (s_b c) h ord (Some q) k = Ok R ->
+  R = zmul (aff_add (s_p c) (s_a c)) (aff_neg (s_p c)) k (Some q).
+Proof. exact small_affine_mul_exact. Qed.
+Print Assumptions C17_affine_small_mul_exact.
+
+Theorem C17_affine_small_jacobi_agree : forall c, In c small_curves ->
+  forall q h ord k rJ rA, In (Some q) (s_pts c) ->
+  (ord = 0 \/ (0 < ord /\ zmul (aff_add (s_p c) (s_a c)) (aff_neg (s_p c)) ord (Some q) = None)) -> 0 <= k ->
+  pj_mul (s_p c) (s_a c) ord false (pj_from_affine q) k = Ok rJ ->
+  ap_mul (s_p c) (s_a c) (s_b c) h ord (Some q) k = Ok rA ->
+  jrepr_opt (s_p c) rJ (zmul (aff_add (s_p c) (s_a c)) (aff_neg (s_p c)) k (Some q)) /\
+  arepr (s_p c) rA (zmul (aff_add (s_p c) (s_a c)) (aff_neg (s_p c)) k (Some q)) /\
+  pj_opt_eq_aff (s_p c) rJ rA = true /\
+  (forall A1, pj_opt_to_affine (s_p c) rJ = Ok A1 -> apt_eqm (s_p c) A1 rA).
+Proof. exact small_affine_jacobi_agree. Qed.
+Print Assumptions C17_affine_small_jacobi_agree.
+
+(* the hypotheses are satisfiable and the models compute: order-5 curve over F_7, G = (0, 1)
+   with order attribute 5: 3*G by the affine class, by PointJacobi.from_affine(G) * 3 and its
+   to_affine(), the mixed __eq__, a negative scalar, a multiple of the order *)
+Example C17_affine_nonvacuous :
+  In (mkSmall 7 1 1 5) small_curves /\ In (Some (0, 1)) (s_pts (mkSmall 7 1 1 5)) /\
+  arepr 7 (Some (0, 1)) (Some (0, 1)) /\ xcan 7 (Some (0, 1)) /\
+  zmul (aff_add 7 1) (aff_neg 7) 5 (Some (0, 1)) = None /\
+  ap_init 7 1 1 1 5 (0, 1) = Ok (0, 1) /\
+  ap_mul 7 1 1 1 5 (Some (0, 1)) 3 = Ok (Some (2, 2)) /\
+  zmul (aff_add 7 1) (aff_neg 7) 3 (Some (0, 1)) = Some (2, 2) /\
+  pj_mul 7 1 5 false (pj_from_affine (0, 1)) 3 = Ok (Some (1, 5, 5)) /\
+  pj_opt_eq_aff 7 (Some (1, 5, 5)) (Some (2, 2)) = true /\
+  ap_mul_via_jacobi 7 1 5 (0, 1) 3 = Ok (Some (2, 2)) /\
+  ap_mul 7 1 1 1 5 (Some (0, 1)) (-3) = Ok (Some (2, 5)) /\
+  ap_mul 7 1 1 1 5 (Some (0, 1)) 10 = Ok None /\
+  ap_add 7 1 1 (Some (0, 1)) (Some (0, 6)) = Ok None /\
+  ap_add 7 1 1 (Some (0, 1)) (Some (7, 1)) = Err EValue.
+Proof.
+  split; [left; reflexivity|]. split; [vm_compute; tauto|].
+  split; [split; reflexivity|]. split; [reflexivity|].
+  repeat (split; [vm_compute; reflexivity|]). vm_compute; reflexivity.
+Qed.
+Print Assumptions C17_affine_nonvacuous.
